@@ -127,6 +127,7 @@ fn qerr<T>(r: Result<T, hk::QuantityError>) -> Result<T, String> {
     r.map_err(|e| match e {
         hk::QuantityError::IncompatibleUnits(..) => "E:incompat".to_string(),
         hk::QuantityError::NonRationalExponent => "E:nonrational".to_string(),
+        hk::QuantityError::ExponentOverflow => "E:exponent-overflow".to_string(),
     })
 }
 
